@@ -143,7 +143,8 @@ def run_property(prop: str, tier: str, seed: int, only=None) -> int:
         if not ex_:
             continue
         out = native_replay({"property": prop, "cond": ex_["cond"], "tier": "thorough", "seed": seed, "args": ex_["args"]})
-        still = out.get("status") == "fails" and out.get("kind") == k["kind"] and out.get("site") == k["site"]
+        still = out.get("status") == "fails" and findings.match(
+            [k], ex_["cond"], {"kind": out.get("kind"), "site": out.get("site"), "args": ex_["args"]}) is not None
         k["_witnessed"] = still
         if still:
             kf_lines.append(f"KNOWN-FINDING: property={prop} {k['id']} {k['kind']}@{k['site']}: {k['what']}")
